@@ -385,6 +385,6 @@ func TestEvolution(t *testing.T) {
 			}
 			return cl
 		},
-		Quick: 3000, Thorough: 100000,
+		Quick: 3000, Thorough: 50000,
 	})
 }
